@@ -202,6 +202,9 @@ func checkC01(ci interface{}, st *Stats) error {
 	}
 	g, in := c.G, c.In
 	g.number()
+	if singleSeesRTrim(g) {
+		return Discard{"Single over a right-trimmed sequence: the reference does not describe it"}
+	}
 	lr := classifyGrammar(g, st)
 	ref := NewRef(g, in)
 	// (wide: the library sees a multi-byte rune wherever the model has the byte 'b')
